@@ -1,0 +1,12 @@
+//go:build verif
+
+// Contracts for the proto2 extension bridge as far as generated code uses it (C04; comment-only).
+// The extension storage belongs to the protobuf runtimes (external code): GetExtension is
+// TRUSTED to be a read of what the runtime holds for (message, descriptor), written here as a
+// ghost slot that only SetExtension/ClearExtension change.
+
+package csproto
+
+//@ func GetExtension(msg interface{}, ext interface{}) (v interface{}, err error)
+//@   trusted delegates to the protobuf runtimes' GetExtension; modelled as a read of the ghost slot of (msg, ext)
+//@   ensures v == gocv_extSlot(msg, ext).val && err == gocv_extSlot(msg, ext).err
